@@ -27,6 +27,7 @@ import KafkaVerif.Lemmas.RecordBatchSpec
 import KafkaVerif.Lemmas.RecordWriter
 import KafkaVerif.Lemmas.Pages
 import KafkaVerif.Lemmas.RecordReader
+import KafkaVerif.Props.C02
 import KafkaVerif.Gen.RecordConsts
 
 namespace KV.Props.C05
@@ -236,6 +237,74 @@ theorem v1_wrapper_offsets (c : Crcs) (h1 : ∀ b, c.ieee b < M32) (h2 : ∀ b, 
   have hg : AllGood c dec [.msg m] [(false, wrapperRecs m inner)] := .cons (.wrapper m inner h) .nil
   have := (decoders_agree_client c h1 h2 dec _ _ hg).2
   exact ⟨by simpa [surfaced] using this, spec_flatten_wrapper c h1 h2 dec m inner h⟩
+
+/-! ### both read paths on the same bytes
+
+`C02.readAll` (Model/MessageSetReader + Model/Batch, the C02 builder's model of message_reader.go / batch.go) consumes
+the token stream that `C02.tokenizeSet` reads off the BYTES; `clientFetch` is this file's model of the Client path.
+For message sets of uncompressed v2 batches (the sublanguage `Spec/ByteLayout` tokenizes) both are applied to the same
+reference-encoded bytes. -/
+
+def batchEntries (bs : List C02.BBatch) : List Entry := bs.map fun b => .batch b.frame
+def batchGroups (bs : List C02.BBatch) : List (Bool × List Rec) := bs.map fun b => (false, b.recs.map (recOfV2 b.frame))
+
+theorem encSetV2_eq (c : Crcs) (bs : List C02.BBatch) : C02.encSetV2 c.castagnoli bs = encSet c (batchEntries bs) := by
+  induction bs with
+  | nil => rfl
+  | cons b bs ih => simp [C02.encSetV2, batchEntries, encSet, encEntry, ih]
+
+open Model.RecordReader in
+theorem allGood_batches (c : Crcs) (dec : Int → Bytes → Option Bytes) (bs : List C02.BBatch)
+    (hframes : ∀ b ∈ bs, b.frame.WF) : AllGood c dec (batchEntries bs) (batchGroups bs) := by
+  induction bs with
+  | nil => exact .nil
+  | cons b bs ih =>
+    have hb : GoodBatch dec b.frame b.recs := ⟨hframes b (by simp), by simp [C02.BBatch.frame, codecOf], rfl⟩
+    have h0 : isControl b.frame.attributes = false := by simp [C02.BBatch.frame, isControl]
+    have := GoodEntry.batch (c := c) b.frame b.recs hb
+    rw [h0] at this
+    exact .cons this (ih fun b' hb' => hframes b' (by simp [hb']))
+
+theorem allRecords_layout (tagOf : Rec → Nat) (bs : List C02.BBatch) :
+    C02.allRecords (C02.layoutOf (fun f x => tagOf (recOfV2 f x)) bs) =
+      ((batchGroups bs).flatMap (·.2)).map (fun r => (r.offset, tagOf r)) := by
+  induction bs with
+  | nil => rfl
+  | cons b bs ih =>
+    simp only [C02.allRecords, C02.layoutOf, List.map_cons, List.flatMap_cons, batchGroups, List.map_append] at ih ⊢
+    rw [ih]
+    congr 1
+    simp [C02.BBatch.item, C02.Item.records, recOfV2, C02.BBatch.frame]
+
+open Model.RecordReader in
+/-- `decoders_agree` on bytes, both paths, for message sets of uncompressed v2 batches (any number of batches, any
+records, compaction gaps as allowed by `LWF`): the Conn/Batch reader model, fed with the tokens read off the
+reference-encoded bytes, delivers exactly the records the Client.Fetch model decodes from the same bytes that lie at
+or above the fetch offset — same absolute offsets, same order, same content (`tagOf` is any digest of a record, e.g.
+an injective one). -/
+theorem decoders_agree_v2_bytes (c : Crcs) (h1 : ∀ b, c.ieee b < M32) (h2 : ∀ b, c.castagnoli b < M32)
+    (dec : Int → Bytes → Option Bytes) (tagOf : Rec → Nat) (bs : List C02.BBatch) (hframes : ∀ b ∈ bs, b.frame.WF)
+    (nb : Int) (hnb : 0 ≤ nb) (hwf : C02.LWF nb (C02.layoutOf (fun f x => tagOf (recOfV2 f x)) bs))
+    (o hwm : Int) (ho : 0 ≤ o) (hne : hwm ≠ o) (expired : Bool) :
+    ∃ toks, C02.tokenizeSet c.castagnoli (fun f x => tagOf (recOfV2 f x)) bs.length (C02.encSetV2 c.castagnoli bs) = some toks ∧
+      (C02.readAll .fixed expired o hwm toks).1 =
+        ((clientFetch c dec (C02.encSetV2 c.castagnoli bs)).filter (fun r => o ≤ r.offset)).map (fun r => (r.offset, tagOf r)) := by
+  obtain ⟨toks, ht, hout, _, _⟩ := C02.single_fetch_bytes c.castagnoli h2 (fun f x => tagOf (recOfV2 f x)) bs hframes nb hnb hwf
+    o hwm ho hne expired
+  refine ⟨toks, ht, ?_⟩
+  rw [hout, allRecords_layout, encSetV2_eq]
+  have hcf := (decoders_agree_client c h1 h2 dec _ _ (allGood_batches c dec bs hframes)).2
+  rw [hcf]
+  have hs : surfaced (batchGroups bs) = (batchGroups bs).flatMap (·.2) := by
+    simp only [surfaced]
+    congr 1
+    apply List.filter_eq_self.mpr
+    intro g hg
+    simp only [batchGroups, List.mem_map] at hg
+    obtain ⟨b, _, rfl⟩ := hg
+    rfl
+  rw [hs, List.filter_map]
+  rfl
 
 /-! ## Part E — constants regenerated from the Go sources on every run (`go/extract records`) -/
 
